@@ -7,7 +7,7 @@ PROPS = {
         "witness_always": ["common_scaled", "texlang_parse_num", "stdlib_totality"],
         "witness_bound": {"common_scaled": "print->scan round trip: ALL 2^16 fractions x 9 integer parts x both signs (display_no_units / parse_no_units on the real code); boundary lattices for the arithmetic functions"},
         "level": "proof",
-        "verus": ["common_scaled", "texlang_parse_int"],
+        "verus": ["common_scaled", "texlang_parse_int", "stdlib_math"],
         "kani": [],
         "unverified_callers": [
             "texlang-stdlib/src/the.rs (token production from the printed string)",
@@ -156,7 +156,7 @@ PROPS["C02"] = {
 PROPS["C09"] = {
     "level": "proof",
     "only_kinds": ["overflow", "div-by-zero", "bounds", "precondition", "shift", "assertion", "concrete-counterexample", "kani"],
-    "verus": ["common_scaled", "texlang_parse_int", "stdext_groupingmap", "stdext_kmp", "texlang_savestack", "texlang_cmdmap", "stdlib_prefix", "stdlib_cond", "texlang_macro"],
+    "verus": ["common_scaled", "texlang_parse_int", "stdlib_math", "stdext_groupingmap", "stdext_kmp", "texlang_savestack", "texlang_cmdmap", "stdlib_prefix", "stdlib_cond", "texlang_macro"],
     "kani": [],
     "witness_always": ["texlang_parse_num", "stdlib_totality"],
     "witness_fns": {"texlang_parse_num": ["parse_impl", "parse_constant", "scan_dimen"]},
